@@ -118,7 +118,15 @@ class CallMixin:
         if f.tag == "clsof":
             return self.construct_dynamic(f, args, kwargs, p, R, node)
         if f.tag == "val":  # opaque callable value (user callback held in a field/param)
-            return self.call_oracle(SV("func", ("oracle", f.z, None)), args, p, R, node)
+            outs = []
+            if f.extra and f.extra.get("maybe_exc"):
+                # the value may be one of the control *classes*: calling it makes an instance
+                for cn in L.CTRL:
+                    q = p.fork()
+                    q.assume(f.z == L.clsobj(cn))
+                    outs.append((q, SV("exc", cn, extra={"value": NoneV, "and_self": NoneV})))
+                p.assume(*[f.z != L.clsobj(cn) for cn in L.CTRL])
+            return outs + self.call_oracle(SV("func", ("oracle", f.z, None)), args, p, R, node)
         raise Unsupported(f"call of {f.tag} (line {node.lineno})")
 
     # ------------------------------------------------------------------ builtins
@@ -216,6 +224,13 @@ class CallMixin:
                 q.env = saved
                 return [(q, SV("filterobj", res))]
             raise Unsupported("filter() with a non-lambda")
+        if name == "issubclass":
+            a, b = args
+            if a.tag == "val" and b.tag == "cls":
+                subs = [n for n in L.CTRL if b.z == n or (b.z == "IterationControl" and n != "StopIteration")]
+                other = z3.Function("val_is_other_class", L.Val, L.B)(a.z)
+                return [(p, BoolV(And(Not(other), Or(*[a.z == L.clsobj(n) for n in subs])) if subs else z3.BoolVal(False)))]
+            raise Unsupported("issubclass")
         if name == "type":
             a = args[0]
             if a.tag == "ref":
@@ -229,6 +244,11 @@ class CallMixin:
             if v.tag == "ref":
                 return And(v.z != L.NONE, self.subclass_of_dynamic(L.cls_of(v.z), L.cls_of(c.z)))
             return z3.BoolVal(False)
+        if c.tag == "func" and c.z == ("builtin", "type"):
+            # isinstance(x, type): x is a class object (of the opaque values only the control classes are)
+            if v.tag == "val":
+                return Or(*[v.z == L.clsobj(n) for n in L.CTRL], z3.Function("val_is_other_class", L.Val, L.B)(v.z))
+            return z3.BoolVal(v.tag in ("cls", "clsof"))
         if c.tag != "cls":
             raise Unsupported("isinstance with dynamic class")
         name = c.z
